@@ -169,6 +169,7 @@ func runC04(c *Ctx) {
 	}
 	r.Floor("literal-compare", ncmp, 25, "comparisons of token text with words")
 	c04Tables(c, p)
+	c04Layout(c)
 }
 
 func c04Tables(c *Ctx, p *core.Prog) {
